@@ -303,6 +303,9 @@ def evaluate_points(cases, history=True):
                 pass
             elif cls == "EPhysicalProblem" and c["basis"] == "M" and c["p"][0] == 0:
                 out["massless_tachyon"] += 1
+                # inside the documented domain (0 <= mh): reported under a narrow key of its own (known finding)
+                out["fails"].append(("M:valid-input-refused:mh=0:hh-tachyon-by-rounding",
+                                     "mass-basis input with mh = 0 is refused: %s %s; %s" % (cls, r.exc[1], brief(c)), {"case": c}))
             else:
                 out["fails"].append(("%s:valid-input-refused:%s" % (c["basis"], cls),
                                      "input inside the documented domain is refused: %s %s; %s" % (cls, r.exc[1], brief(c)), {"case": c}))
